@@ -110,6 +110,13 @@ func vRunEMTStream(c *vCase, truth []RawType, blocks []int, set vTrigSetting, np
 				return nil, false
 			}
 		}
+		if (bi+len(blocks))%3 == 1 {
+			// what the server does after any trigger request for any channel: it collects the trigger state of all channels for
+			// its clients. Reading the state changes nothing.
+			f.ds.ComputeFullTriggerState()
+			f.ds.ComputeGroupTriggerState()
+			c.Cov("status_reads_between_blocks", 1)
+		}
 		recs, err := f.push(n, nil, 0)
 		if err != nil {
 			c.Violate("c08:process-error", "ProcessSegments error: %v", err)
